@@ -254,12 +254,17 @@ class SF:
 
     def __truediv__(self, o):
         if isinstance(o, SNaN): return NAN
+        if isinstance(o, SI):
+            o = cur().enum_int(o)
         d = R(o)
         _divguard(d)
         return SF(nl_div(self.e, d))
 
     def __rtruediv__(self, o):
         if isinstance(o, SNaN): return NAN
+        if isinstance(self, SI):
+            v = cur().enum_int(self)
+            return o / v
         _divguard(self.e)
         return SF(nl_div(R(o), self.e))
 
@@ -1039,6 +1044,7 @@ class Ctx:
         self.tsolve = 0.0
         self.unknown = 0
         self.replayer = None
+        self.want = None
         self.refine_rounds = 4
         self.reset_path([])
 
@@ -1186,6 +1192,22 @@ class Ctx:
         self.model = keep
         return known
 
+    def enum_int(self, si, limit=400):
+        """concretise a symbolic integer by forking over its feasible values (keeps later arithmetic linear)"""
+        e = z3.simplify(si.i)
+        if z3.is_int_value(e):
+            return e.as_long()
+        for _ in range(limit):
+            m = self.model
+            if m is None:
+                if self.check() != z3.sat:
+                    raise PathEnd("infeasible", "enum_int on infeasible path")
+                m = self.model = self.s.model()
+            v = m.eval(e, model_completion=True).as_long()
+            if self.branch(e == v):
+                return v
+        raise PathEnd("bound", "enum_int: more than %d values" % limit)
+
     def newreal(self, name):
         self.fresh += 1
         return z3.Real(f"{name}!{len(self.decisions)}!{self.fresh}")
@@ -1271,6 +1293,63 @@ class Ctx:
             self.obls.append((label, "sat", self.model_inputs(self.s.model()))); return False
         self.obls.append((label, "unknown", None)); return False
 
+    def depends_on(self, names, terms, since=0):
+        """syntactic dependence of output terms / path decisions (assertions added after index `since`) on variables"""
+        targets = {self.inputs[n].get_id() for n in names}
+        seen = set()
+
+        def occurs(t):
+            stack = [t]
+            while stack:
+                x = stack.pop()
+                i = x.get_id()
+                if i in seen:
+                    continue
+                seen.add(i)
+                if i in targets:
+                    return True
+                stack.extend(x.children())
+            return False
+        for t in terms:
+            if isinstance(t, (SF, SB)):
+                if occurs(t.e):
+                    return "output"
+        for a in list(self.s.assertions())[since:]:
+            if occurs(a):
+                return "path"
+        return None
+
+    def mark(self):
+        return len(self.s.assertions())
+
+    def prove_independent(self, label, names, outputs, rerun, since=0):
+        """non-interference: the outputs (and the path taken) do not depend on the named inputs.
+        Discharged syntactically (the variables occur neither in an output term nor in a decision made after `since`);
+        otherwise a concrete two-run witness is searched through the replayer."""
+        if self.want is not None:
+            head = label.split(":", 1)[0]
+            if not any(p.strip() in self.want for p in head.split(",")):
+                return True
+        flat = []
+        for o in outputs:
+            flat += list(o) if isinstance(o, (SArr, list, tuple)) else [o]
+        dep = self.depends_on(names, flat, since)
+        if dep is None:
+            self.obls.append((label, "unsat", None, None))
+            return True
+        m = self.path_model()
+        if m is None:
+            self.obls.append((label, "unknown", None, None))
+            return False
+        vals = self.model_inputs(m)
+        if self.replayer is not None:
+            st, cc = self.replayer(vals)
+            if st == "ok" and any(l == label and not ok for (l, ok) in cc.obls):
+                self.obls.append((label, "sat-confirmed", vals, None))
+                return False
+        self.obls.append((label, "sat-unconfirmed", vals, None))
+        return False
+
     def model_inputs(self, m):
         out = {}
         for name, v in self.inputs.items():
@@ -1313,6 +1392,8 @@ class ConcCtx:
         self.nstub = 0
         self.notes = {}
         self.missing = []
+        self.alts = {}      # tuple(names) -> list of alternative value dicts (filled by real()/int() bounds)
+        self.bounds = {}
 
     def _get(self, name, default):
         if name in self.values and self.values[name] is not None:
@@ -1327,6 +1408,9 @@ class ConcCtx:
     def real(self, name, lo=None, hi=None):
         v = float(self._get(name, lo if lo is not None else (hi if hi is not None else 0.0)))
         self._chk(v, lo, hi, name)
+        l = lo if lo is not None else min(v - 1.0, -1.0)
+        h = hi if hi is not None else max(v + 1.0, 1.0)
+        self.alts[(name,)] = [{name: x} for x in (l, h, (l + h) / 2, l + 0.3183 * (h - l)) if x != v]
         return v
 
     def int(self, name, lo=None, hi=None):
@@ -1379,3 +1463,33 @@ class ConcCtx:
 
     def feasible(self, cond):
         return builtins.bool(cond)
+
+    def mark(self):
+        return 0
+
+    def prove_independent(self, label, names, outputs, rerun, since=0):
+        """concrete: re-run with alternative values of the named inputs; outputs must be identical"""
+        def flat(os_):
+            f = []
+            for o in os_:
+                f += [float(x) for x in o] if isinstance(o, (list, tuple, _np.ndarray)) else [o]
+            return f
+        base = flat(outputs)
+        ok = True
+        for alt in self.alts.get(tuple(names), []) or [None]:
+            if alt is None:
+                continue
+            try:
+                other = flat(rerun(alt))
+            except AssumptionFailed:
+                continue
+            for a, b in zip(base, other):
+                if isinstance(a, (bool, _np.bool_)) or isinstance(b, (bool, _np.bool_)) or a is None or b is None:
+                    if a != b: ok = False
+                elif not (a == b or (a != a and b != b) or abs(a - b) <= 1e-12 * max(1.0, abs(a), abs(b))):
+                    ok = False
+            if not ok:
+                self.notes.setdefault("independence", []).append((label, alt))
+                break
+        self.obls.append((label, ok))
+        return ok
